@@ -23,14 +23,15 @@ R.specfn("D", [("o", O), ("t", BITS)], BITS,
          "'' if t == '' else D(o, t[:-1]) + bit(Flip(o, D(o, t[:-1])) ^ int(t[-1]))", rec=True)
 # what the memo may hold for a key k (m = number of anonymized leading bits)
 R.specfn("G", [("o", O), ("m", INT), ("k", BITS)], BITS,
-         "A(o, k) if len(k) <= m else A(o, k[:m]) + k[m:]")
+         "A(o, k) if len(k) <= m else A(o, k[:m]) + k[m:]", inline=False)
 R.specfn("Ginv", [("o", O), ("m", INT), ("k", BITS)], BITS,
-         "D(o, k) if len(k) <= m else D(o, k[:m]) + k[m:]")
+         "D(o, k) if len(k) <= m else D(o, k[:m]) + k[m:]", inline=False)
 
+# the seeded set is a binary tree closed under parent and sibling (opaque: unfolded by instantiation)
 R.pred("InitOK", [("c", SetT(BITS))], [
     ("root", "'' in c"),
     ("closed", "all(implies(k != '', k[:-1] in c and sibling(k) in c) for k in c)"),
-])
+], opaque=True)
 
 R.pred("WF", [("o", O)], [
     ("range", "0 <= o.preserve_suffix and o.preserve_suffix <= o.length and o.length >= 1"),
@@ -58,9 +59,10 @@ R.lemma("LAD", [("o", O), ("t", BITS)], [], ["A(o, D(o, t)) == t"],
 R.lemma("LDA", [("o", O), ("a", BITS)], [], ["D(o, A(o, a)) == a"],
         induct="len(a)", triggers=[["A(o, a)"]])
 
-R.lemma("LG_len", [("o", O), ("m", INT), ("a", BITS)], ["0 <= m"], ["len(G(o, m, a)) == len(a)"], triggers=[])
+R.lemma("LG_len", [("o", O), ("m", INT), ("a", BITS)], ["0 <= m"], ["len(G(o, m, a)) == len(a)"],
+        triggers=[["G(o, m, a)"]])
 R.lemma("LG_inj", [("o", O), ("m", INT), ("a", BITS), ("b", BITS)],
-        ["0 <= m", "G(o, m, a) == G(o, m, b)"], ["a == b"], triggers=[])
+        ["0 <= m", "G(o, m, a) == G(o, m, b)"], ["a == b"], triggers=[["G(o, m, a)", "G(o, m, b)"]])
 
 R.lemma("LA_prefix", [("o", O), ("b", BITS), ("j", INT)], ["0 <= j", "j <= len(b)"],
         ["A(o, b)[:j] == A(o, b[:j])"], induct="len(b)", triggers=[],
@@ -92,6 +94,23 @@ R.lemma("T_perm", [("o", O), ("m", INT), ("L", INT), ("x", BITS)],
         ["0 <= m", "m <= L", "len(x) == L"],
         ["Ginv(o, m, G(o, m, x)) == x", "G(o, m, Ginv(o, m, x)) == x",
          "len(G(o, m, x)) == L", "len(Ginv(o, m, x)) == L"], triggers=[])
+
+# seeded nodes are fixed points
+R.lemma("LC_parent", [("c", SetT(BITS)), ("k", BITS)], ["InitOK(c)", "k in c"], ["k[:-1] in c"], triggers=[])
+R.lemma("S_init_take", [("x", BITS), ("n", INT)], ["0 <= n", "n < len(x)"], ["x[:-1][:n] == x[:n]"], triggers=[])
+R.lemma("S_take_all", [("x", BITS), ("n", INT)], ["n >= len(x)"], ["x[:n] == x"], triggers=[])
+R.lemma("LC_prefix", [("c", SetT(BITS)), ("k", BITS), ("j", INT)], ["InitOK(c)", "k in c", "0 <= j", "j <= len(k)"],
+        ["k[:j] in c"], induct="len(k)", triggers=[],
+        proof=["case j == len(k)", "use S_take_all(k, j)",
+               "use LC_parent(c, k)", "use LC_prefix(c, k[:-1], j)", "use S_init_take(k, j)"])
+R.lemma("LA_seed", [("o", O), ("k", BITS)], ["InitOK(o.c0)", "k in o.c0"], ["A(o, k) == k"],
+        induct="len(k)", triggers=[],
+        proof=["use LC_parent(o.c0, k)", "use LA_seed(o, k[:-1])"])
+R.lemma("S_split", [("x", BITS), ("m", INT)], ["0 <= m"], ["x[:m] + x[m:] == x"], triggers=[])
+R.lemma("LG_seed", [("o", O), ("m", INT), ("k", BITS)], ["InitOK(o.c0)", "k in o.c0", "0 <= m"],
+        ["G(o, m, k) == k"], triggers=[["G(o, m, k)"]],
+        proof=["case len(k) <= m", "use LA_seed(o, k)", "use LC_prefix(o.c0, k, m)", "use LA_seed(o, k[:m])",
+               "use S_split(k, m)"])
 
 # ---------------------------------------------------------------- function contracts
 R.contract(M + "_generate_bit_from_hash",
@@ -151,7 +170,8 @@ R.contract(M + "_BaseIpAnonymizer.__init__",
            types={"self": O, "salt": STR, "length": INT, "salter": Opq("Salter"), "preserve_suffix": Opt(INT)},
            requires=["length >= 1",
                      "implies(preserve_suffix is not None, 0 <= preserve_suffix and preserve_suffix <= length)"],
-           modifies=["self"],
+           modifies=["self.salt", "self.cache", "self.length", "self.fmt", "self.salter", "self.preserve_suffix",
+                     "self.c0"],
            ghost_exit={"self.c0": "dom(self.cache)"},
            ensures=["self.salt == salt", "self.length == length", "self.salter == salter",
                     "self.preserve_suffix == (0 if preserve_suffix is None else preserve_suffix)",
@@ -170,3 +190,85 @@ R.contract(M + "IpV6Anonymizer.__init__",
                     "self.preserve_suffix == (0 if kwargs['preserve_suffix'] is None else kwargs['preserve_suffix'])",
                     "all(k == '' for k in self.c0)",
                     "WF(self)"])
+
+# ---------------------------------------------------------------- IPv4 specifics
+R.objtype("Ip4", pyclass=M + "IpAnonymizer", base="BaseIp",
+          fields={"_preserve_addresses": Ty("list", Opq("Net"))})
+O4 = ObjT("Ip4")
+
+# "ones then zeros, or zeros then ones" (property C05): the 33+33 values, 64 of them distinct
+R.specfn("IsMaskSpec", [("x", ANY)], BOOL,
+         "any(x == 2**32 - 2**(32 - a) or x == 2**a - 1 for a in range(33))")
+
+R.contract(M + "IpAnonymizer._is_mask",
+           types={"self": O4, "possible_mask_int": Ty("bv", 64)}, returns=BOOL, bitvector=64,
+           requires=["0 <= possible_mask_int", "possible_mask_int < 4294967296"],
+           ensures=["result == IsMaskSpec(possible_mask_int)"], pure=True)
+
+# network text -> bits of the preserved prefix (ghost)
+from pyvc.spec import SPEC_BUILTINS, _sp_uf_pred, _sp_uf_fun  # noqa: E402
+SPEC_BUILTINS["ValidNet4"] = _sp_uf_pred("ValidNet4", STR)
+SPEC_BUILTINS["ip_network"] = _sp_uf_fun("ip_network", Opq("Net"), STR)
+SPEC_BUILTINS["net_int"] = _sp_uf_fun("net_int", INT, Opq("Net"))
+SPEC_BUILTINS["net_plen"] = _sp_uf_fun("net_plen", INT, Opq("Net"))
+SPEC_BUILTINS["InNet"] = _sp_uf_pred("InNet", INT, Opq("Net"))
+
+R.specfn("NetBits", [("s", STR)], BITS, "B(net_int(ip_network(s)), 32)[:net_plen(ip_network(s))]")
+# every node on the path of prefix p is seeded (both children pinned to identity)
+R.pred("SeededPath", [("c", SetT(BITS)), ("p", BITS)], [
+    ("path", "all((p[:q] + '0') in c for q in range(len(p)))"),
+], opaque=True)
+R.lemma("L_sp_mono", [("c", SetT(BITS)), ("p", BITS), ("x", BITS)], ["SeededPath(c, p)"],
+        ["SeededPath(setadd(c, x), p)"], triggers=[["SeededPath(c, p)", "setadd(c, x)"]])
+R.lemma("L_initok_add", [("c", SetT(BITS)), ("v", BITS)], ["InitOK(c)", "v in c"],
+        ["InitOK(setadd(setadd(c, v + '0'), v + '1'))"],
+        triggers=[["InitOK(c)", "setadd(setadd(c, v + '0'), v + '1')"]])
+R.pred("CacheInit", [("o", O)], [
+    ("initok", "InitOK(dom(o.cache))"),
+    ("ident", "all(o.cache[k] == k and len(k) <= 32 for k in o.cache)"),
+])
+
+# the default list, from the property statement: class prefixes A-D(E) and the three RFC 1918 blocks
+R.spec_consts["DEFAULT_PREFIXES"] = ("0.0.0.0/1", "128.0.0.0/2", "192.0.0.0/3", "224.0.0.0/4",
+                                     "10.0.0.0/8", "172.16.0.0/12", "192.168.0.0/16")
+
+KW4 = {"preserve_suffix": Opt(INT), "salter": Opq("Salter")}
+LIST_S = Ty("list", STR)
+
+R.contract(M + "IpAnonymizer.__init__",
+           types={"self": O4, "salt": STR, "preserve_prefixes": Opt(LIST_S), "preserve_addresses": Opt(LIST_S),
+                  "kwargs": KW4},
+           requires=["implies(kwargs['preserve_suffix'] is not None, "
+                     "0 <= kwargs['preserve_suffix'] and kwargs['preserve_suffix'] <= 32)",
+                     "implies(preserve_prefixes is not None, all(ValidNet4(p) for p in preserve_prefixes))",
+                     "implies(preserve_addresses is not None, all(ValidNet4(p) for p in preserve_addresses))"],
+           modifies=["self"],
+           ghost_exit={"self.c0": "dom(self.cache)"},
+           ensures=["self.salt == salt", "self.length == 32", "self.salter == kwargs['salter']",
+                    "self.preserve_suffix == (0 if kwargs['preserve_suffix'] is None else kwargs['preserve_suffix'])",
+                    "WF(self)",
+                    # every listed prefix is seeded: the preserved list is (defaults | user list) ++ preserved addresses
+                    "implies(preserve_prefixes is None and preserve_addresses is None, "
+                    "all(SeededPath(self.c0, NetBits(p)) for p in cat(DEFAULT_PREFIXES)))",
+                    "implies(preserve_prefixes is None and preserve_addresses is not None, "
+                    "all(SeededPath(self.c0, NetBits(p)) for p in cat(DEFAULT_PREFIXES, preserve_addresses)))",
+                    "implies(preserve_prefixes is not None and preserve_addresses is None, "
+                    "all(SeededPath(self.c0, NetBits(p)) for p in cat(old(preserve_prefixes))))",
+                    "implies(preserve_prefixes is not None and preserve_addresses is not None, "
+                    "all(SeededPath(self.c0, NetBits(p)) for p in cat(old(preserve_prefixes), preserve_addresses)))",
+                    "implies(preserve_addresses is None, len(self._preserve_addresses) == 0)",
+                    "implies(preserve_addresses is not None, len(self._preserve_addresses) == len(preserve_addresses) and "
+                    "all(self._preserve_addresses[j] == ip_network(preserve_addresses[j]) for j in range(len(preserve_addresses))))",
+                    ],
+           loops={
+               0: LoopContract(["subnet_str"], index="_i0", heap_modifies=["self.cache"], invariant=[
+                   "CacheInit(self)",
+                   "all(SeededPath(dom(self.cache), NetBits(preserve_prefixes[j])) for j in range(_i0))",
+               ]),
+               1: LoopContract(["position"], index="_i1", heap_modifies=["self.cache"], invariant=[
+                   "CacheInit(self)",
+                   "all(SeededPath(dom(self.cache), NetBits(preserve_prefixes[j])) for j in range(_i0))",
+                   "prefix_bits[:_i1] in self.cache",
+                   "all((prefix_bits[:q] + '0') in self.cache for q in range(_i1))",
+               ]),
+           })
